@@ -32,6 +32,7 @@ def run(ctx):
     ctx.rule("R3.register-before-publish", "the new counters are pushed to the process registry before the pointer is published to the thread; the bootstrap guard brackets the bootstrap allocations", floor=3)
     ctx.rule("R3.totals-sum-all", "allocation_totals reads bytes and count of every registry entry inside one loop over the registry", floor=2)
     ctx.rule("R4.delta", "span delta = current counters/totals minus the snapshot stored at span creation", floor=4)
+    ctx.rule("R5.accumulate-total", "OperationMetrics::add_span and ::merge update every field exactly once on every path (no early exit), scalar totals by adding the matching operand, accumulators by add/merge of the matching operand", floor=10)
     ctx.rule("R4.sink", "both span kinds record through OperationMetrics::add_span exactly once per non-panicking drop", floor=2)
 
     impl_bodies = {}
@@ -334,3 +335,63 @@ def run(ctx):
         srcs = [callee_key(t["callee"]) for _, t in n.calls()]
         oksn = any(k.endswith(src) for k in srcs)
         ctx.ob("R4.delta", span.split("::")[-1] + ".snapshot-source", oksn, n.loc(), f"new() reads {src}: {oksn}")
+
+
+    # R5: reports are the sums of their spans
+    adt = prog.adts.get("alloc_tracker::operation_metrics::OperationMetrics")
+    if adt is None:
+        ctx.missing("R5.accumulate-total", "OperationMetrics")
+        return
+    from ..analysis import field_assigns
+    fields = adt["variants"][0]["fields"]
+    ADD_SPAN_ARG = {"total_iterations": {2}, "total_bytes": {3}, "total_count": {4}, "bytes": {2, 3}, "allocations": {2, 4}}
+    for fname in ("add_span", "merge"):
+        b = prog.one(f"operation_metrics::OperationMetrics::{fname}")
+        if b is None:
+            ctx.missing("R5.accumulate-total", f"OperationMetrics::{fname}")
+            continue
+        ctx.fn(b)
+        for f in fields:
+            n = f["name"]
+            full = "alloc_tracker::operation_metrics::OperationMetrics::" + n
+            if f["ty"]["k"] == "prim":
+                asg = field_assigns(b, "OperationMetrics::" + n)
+                pc = path_count(b, sorted({bb for bb, _, _ in asg}))
+                ok = pc == (1, 1) and len(asg) == 1
+                det = f"{n}: writes per path {pc}"
+                if ok:
+                    sl = Slice(b).run(asg[0][2]["rv"]["op"]) if asg[0][2]["rv"]["k"] == "use" else None
+                    if sl is None:
+                        ok = False
+                    else:
+                        ks = [k.split("::")[-1] for k, _, _ in sl["calls"]]
+                        adds = [k for k in ks if k in ("checked_add", "wrapping_add", "saturating_add")] or [o for o in sl["binops"] if o.startswith("Add")]
+                        want_args = {1, 2} if fname == "merge" else ({1} | ADD_SPAN_ARG[n])
+                        ok = bool(adds) and full in sl["fields"] and sl["args"] == want_args and \
+                            not [k for k in ks if k in ("checked_sub", "wrapping_sub", "checked_mul", "max", "min")]
+                        det += f"; value derives via {ks} from parameters {sorted(sl['args'])} (expected {sorted(want_args)}) and field {n}"
+                ctx.ob("R5.accumulate-total", f"{fname}.{n}", ok, b.loc(), det)
+            else:
+                meth = "add" if fname == "add_span" else "merge"
+                cs = []
+                for bb, t in b.calls():
+                    if t["callee"].get("method") == meth and "SpanAccumulator" in callee_key(t["callee"]) and t["args"]:
+                        r, fs = op_access_path(b, t["args"][0])
+                        if fs and fs[-1] == full and r == 1:
+                            cs.append((bb, t))
+                pc = path_count(b, [bb for bb, _ in cs])
+                ok = pc == (1, 1) and len(cs) == 1
+                det = f"{n}: SpanAccumulator::{meth} calls per path {pc}"
+                if ok:
+                    t = cs[0][1]
+                    if fname == "merge":
+                        r2, fs2 = op_access_path(b, t["args"][1])
+                        ok = r2 == 2 and bool(fs2) and fs2[-1] == full
+                        det += f"; argument is other.{n}: {ok}"
+                    else:
+                        got = set()
+                        for a in t["args"][1:]:
+                            got |= Slice(b, through_calls=False).run(a)["args"]
+                        ok = got == ADD_SPAN_ARG[n]
+                        det += f"; arguments are parameters {sorted(got)} (expected {sorted(ADD_SPAN_ARG[n])})"
+                ctx.ob("R5.accumulate-total", f"{fname}.{n}", ok, b.loc(), det)
